@@ -70,6 +70,13 @@ RESOLUTIONS = [2, 3, 4, 5]
 HULL_DIRS = [(1, 0, 0), (0, 1, 0), (0, 0, 1), (1, 1, 0), (1, -1, 0), (1, 0, 1), (1, 0, -1), (0, 1, 1), (0, 1, -1),
              (1, 1, 1), (1, 1, -1), (1, -1, 1), (-1, 1, 1)]
 SEED = int(os.environ.get("VERIF_SEED", "0") or 0)
+# unit-of-length deviation: every coordinate / radius of an input is multiplied by 2^k (exactly, a power of two), the
+# answers are divided by 2^k (exactly) and must then satisfy the very same exact expectations: containment, on-sphere,
+# on-edge, in-face, the p handed to choice, Bernstein values all scale exactly; every tolerance is relative
+SCALE_EXPS = [-40, 40]
+OFFSET = [3, -5, 7]                       # a control point is moved by this lattice vector in the edit histories
+FORMS = ["tuples", "ndarray", "vecs"]     # argument forms of the control points handed to the constructors
+H_PARAMS = [0.0, 1.0 / 3.0, 1.0]          # parameters of the call made before a control point is edited (patches)
 
 
 # ================================================================================================ tasks
@@ -138,7 +145,45 @@ def tasks(tier):
         nets += _generic_nets(m, n)
         for ch in _chunks(nets, 12):
             out.append({"kind": "patch", "nets": ch})
+    # ---- call histories on one curve / patch object (edit of a control point between two calls) and ownership of
+    # the returned vectors / of the caller's control point arrays
+    # (ownership: every polygon; edit histories: polygons of degree <= 1 and every 4th other one in quick, all in thorough;
+    #  nets: every 6th (thorough: every 2nd) net of the patch family and every net with pairwise distinct control points)
+    for t in [t for t in out if t["kind"] == "curve"]:
+        for ch in _chunks(t["polygons"], 40):
+            out.append({"kind": "curve_hist", "polygons": ch, "hist_every": 4 if q else 1})
+    hist_nets = []
+    for t in [t for t in out if t["kind"] == "patch"]:
+        hist_nets += [net for k, net in enumerate(t["nets"]) if k % (6 if q else 2) == 0 or _is_generic(net)]
+    for ch in _chunks(hist_nets, 3):
+        out.append({"kind": "patch_hist", "nets": ch})
+    # ---- unit-of-length deviation of every sampler and of the Bezier evaluations
+    base = list(out)
+    for ex in SCALE_EXPS:
+        for t in base:
+            k = t["kind"]
+            if k == "sphere":
+                out.append(dict(t, n_pts=[1, 2, 9], sliding=False, scale_exp=ex))
+            elif k == "ball" and t["n_pts"] == [N_PTS[0]]:
+                out.append(dict(t, n_pts=[1, 9], sliding=False, scale_exp=ex))
+            elif k == "aabb_grid":
+                out.append(dict(t, scale_exp=ex))
+            elif k == "aabb_uniform":
+                out.append(dict(t, n_pts=[1, 2, 9] if t["dim"] <= 2 else [2], sliding=False, scale_exp=ex))
+            elif k == "polyline":
+                out.append(dict(t, n_pts=[1, 2], sliding=False, scale_exp=ex))
+            elif k == "surface" and (not q or t["pointset"] == "moment" or t["nv"] == 3):
+                out.append(dict(t, n_pts=[2], sliding=False, scale_exp=ex))
+            elif k == "curve":
+                out.append(dict(t, lite=True, scale_exp=ex))
+            elif k == "patch":
+                out.append(dict(t, nets=t["nets"][::(3 if q else 1)] , lite=True, scale_exp=ex))
     return out
+
+
+def _is_generic(net):
+    flat = [tuple(p) for row in net for p in row]
+    return len(set(flat)) == len(flat) and len(flat) > 1
 
 
 def _generic_nets(m, n):
@@ -158,10 +203,25 @@ class Ctx:
         self.seam = L.Seam()
         self.seen = set()
         self.snap = L.rng_snapshot()      # state of numpy's global generator and of Python's random, chained
+        self.ex = 0                       # unit of length of this task = 2^ex
+        self.s = 1.0
+        self.suffix = ""
+
+    def set_unit(self, task, kind):
+        self.ex = int(task.get("scale_exp", 0) or 0)
+        self.s = 2.0 ** self.ex
+        self.suffix = f":unit_of_length=2^{self.ex}" if self.ex else ""
+        if self.ex:
+            self.rep.flag(f"unit:2^{self.ex}:{kind}")
+        return self.s
 
     def violation(self, sub, callee, kind, icls, detail):
         if kind == "raises:SeamError":   # the seam refused a draw: harness error (counted in _exec), not a verdict
             return
+        icls = icls + self.suffix
+        if self.ex and isinstance(detail, dict):
+            detail = dict(detail, unit_of_length=f"every coordinate / radius shown here was multiplied by 2^{self.ex} "
+                                                 "before the call, every answer divided by it")
         fp = (sub, callee, kind, icls)
         self.rep.count("violating_executions:" + sub)
         if fp in self.seen:          # one record per fingerprint and task (the first = the simplest)
@@ -256,6 +316,7 @@ def _run_round(task, ctx: Ctx, ball):
     G = L.lattice_vectors(task["lat"])
     combos = [(g, u) for g in G for u in U6] if ball else [(g, None) for g in G]
     configs = [([float(x) for x in c], float(r)) for c, r in task["configs"]]
+    s = ctx.set_unit(task, name)
     ccls_of = lambda c: "centre==0" if not any(c) else "centre!=0"
     dv = Deferred(ctx, {_radius_class(r) for _, r in configs}, {ccls_of(c) for c, _ in configs})
     for c, r in configs:
@@ -269,16 +330,17 @@ def _run_round(task, ctx: Ctx, ball):
                 for off, rows in L.windows(combos, n, task["sliding"]):
                     normals = [row[0][k] for k in range(3) for row in rows]      # k-th normal() call = k-th coordinate
                     uniforms = [row[1] for row in rows] if ball else ()
-                    o = _exec(ctx, fn, M.Vec(*c), r, n, pc, normals=normals, uniforms=uniforms)
+                    o = _exec(ctx, fn, M.Vec(*[x * s for x in c]), r * s, n, pc, normals=normals, uniforms=uniforms)
                     det = {"center": c, "radius": r, "n_pts": n, "return_point_cloud": pc,
                            "draws_per_point(normal xyz, uniform01)": rows[:3]}
-                    rep.case((name, c, r, n, pc, off))
+                    rep.case((name, c, r, n, pc, off, ctx.ex))
                     if not o.ok:
                         dv.add(f"C19.{name}.returns", callee, exc_kind(o), rcls, ccls, dict(det, msg=o.msg))
                         continue
                     pts = _points_of(ctx, o, pc, f"C19.{name}.count", callee, "any", det)
                     if pts is None:
                         continue
+                    pts = pts / s
                     rep.evaluations += 1 + len(pts)
                     if pts.shape != (n, 3):
                         dv.add(f"C19.{name}.count", callee, "mismatch:count", rcls, ccls, dict(det, got_shape=list(pts.shape)))
@@ -321,6 +383,7 @@ def _check_box_points(ctx, o, pc, dim, box, mode, n, det, allowed_counts):
     pts = _points_of(ctx, o, pc, f"C19.aabb.{mode}.count", callee, ccls, det)
     if pts is None:
         return
+    pts = pts / ctx.s
     rep.evaluations += 1 + len(pts)
     width = 3 if pc else dim
     if pts.ndim != 2 or pts.shape[1] != width or pts.shape[0] not in allowed_counts:
@@ -340,15 +403,16 @@ def _check_box_points(ctx, o, pc, dim, box, mode, n, det, allowed_counts):
         rep.flag(f"aabb:{mode}:strictly_inside_seen")
 
 
-def _make_box(box):
+def _make_box(box, s=1.0):
     from mouette.geometry import AABB
-    return AABB([float(b[0]) for b in box], [float(b[1]) for b in box])
+    return AABB([float(b[0]) * s for b in box], [float(b[1]) * s for b in box])
 
 
 def _run_aabb_grid(task, ctx: Ctx):
     from mouette import sampling
     rep = ctx.rep
     dim = task["dim"]
+    s = ctx.set_unit(task, "aabb_grid")
     for box in task["boxes"]:
         rep.flag(f"aabb:grid:dim{dim}")
         rep.flag("aabb:grid:" + _box_class(box))
@@ -356,10 +420,10 @@ def _run_aabb_grid(task, ctx: Ctx):
             allowed = L.grid_counts_allowed(n, dim)
             rep.flag("aabb:grid:" + ("exact_power" if allowed == {n} else "non_power"))
             for pc in ((False, True) if dim <= 3 else (False,)):
-                o = _exec(ctx, sampling.sample_AABB, _make_box(box), n, "grid", pc)
+                o = _exec(ctx, sampling.sample_AABB, _make_box(box, s), n, "grid", pc)
                 det = {"box_min": [b[0] for b in box], "box_max": [b[1] for b in box], "n_pts": n, "mode": "grid",
                        "return_point_cloud": pc}
-                rep.case(("grid", box, n, pc))
+                rep.case(("grid", box, n, pc, ctx.ex))
                 _check_box_points(ctx, o, pc, dim, box, "grid", n, det, allowed)
     rep.sample({"sampler": "sample_AABB", "mode": "grid", "box": task["boxes"][-1], "n_pts": task["n_pts"]})
 
@@ -369,16 +433,17 @@ def _run_aabb_uniform(task, ctx: Ctx):
     rep = ctx.rep
     dim = task["dim"]
     combos = list(itertools.product(U6, repeat=dim))
+    s = ctx.set_unit(task, "aabb_uniform")
     for box in task["boxes"]:
         rep.flag(f"aabb:uniform:dim{dim}")
         for n in task["n_pts"]:
             for pc in ((False, True) if dim <= 3 else (False,)):
                 for off, rows in L.windows(combos, n, task["sliding"]):
                     uniforms = [x for row in rows for x in row]           # one random((n,dim)) call, row-major
-                    o = _exec(ctx, sampling.sample_AABB, _make_box(box), n, "uniform", pc, uniforms=uniforms)
+                    o = _exec(ctx, sampling.sample_AABB, _make_box(box, s), n, "uniform", pc, uniforms=uniforms)
                     det = {"box_min": [b[0] for b in box], "box_max": [b[1] for b in box], "n_pts": n,
                            "mode": "uniform", "return_point_cloud": pc, "uniform01_draws_per_point": rows[:3]}
-                    rep.case(("uniform", box, n, pc, off))
+                    rep.case(("uniform", box, n, pc, off, ctx.ex))
                     _check_box_points(ctx, o, pc, dim, box, "uniform", n, det, {n})
     rep.sample({"sampler": "sample_AABB", "mode": "uniform", "box": task["boxes"][-1], "script_of_last_execution": rows[:2]})
 
@@ -406,8 +471,9 @@ def _run_polyline(task, ctx: Ctx):
     combos = [(e, t) for e in range(NE) for t in U6]
     icls = "NE==1" if NE == 1 else "NE>1"
     rep.flag("polyline:" + icls)
+    unit = ctx.set_unit(task, "polyline")
     for coords in _placements(task):
-        mesh = F.build_polyline(coords, edges_in)
+        mesh = F.build_polyline([[x * unit for x in p] for p in coords], edges_in)
         medges = [tuple(int(v) for v in mesh.edges[e]) for e in range(len(mesh.edges))]
         if len(medges) != NE:
             raise RuntimeError("family member changed by the constructor")   # input family broken: harness error
@@ -423,13 +489,14 @@ def _run_polyline(task, ctx: Ctx):
                     o = _exec(ctx, sampling.sample_polyline, mesh, n, pc, choices=choices, uniforms=uniforms)
                     det = {"vertices": coords, "edges": medges, "n_pts": n, "return_point_cloud": pc,
                            "draws_per_point(edge index, uniform01)": rows[:3]}
-                    rep.case(("polyline", coords, medges, n, pc, off))
+                    rep.case(("polyline", coords, medges, n, pc, off, ctx.ex))
                     if not o.ok:
                         ctx.violation("C19.polyline.returns", callee, exc_kind(o), icls, dict(det, msg=o.msg))
                         continue
                     pts = _points_of(ctx, o, pc, "C19.polyline.count", callee, icls, det)
                     if pts is None:
                         continue
+                    pts = pts / unit
                     rep.evaluations += 1 + len(pts)
                     if pts.shape != (n, 3):
                         ctx.violation("C19.polyline.count", callee, "mismatch:count", icls, dict(det, got_shape=list(pts.shape)))
@@ -454,6 +521,8 @@ def _run_polyline(task, ctx: Ctx):
                                 chosen = calls[0]["returned"]
                             if len(set(round(x, 12) for x in want_p)) > 1:
                                 rep.flag("polyline:unequal_shares")
+                                if unit * math.fsum(math.sqrt(q) for q in sq) < 1e-8:
+                                    rep.flag("polyline:unequal_shares:total_length<1e-8")
                     else:
                         chosen = [0] * n
                     # ---- every point on an edge (exact test); on the edge that was drawn for it
@@ -486,7 +555,8 @@ def _run_surface(task, ctx: Ctx):
     NF = len(faces_in)
     icls = "NF==1" if NF == 1 else "NF>1"
     rep.flag("surface:" + icls)
-    mesh = F.build_surface(coords, faces_in)
+    usc = ctx.set_unit(task, "surface")
+    mesh = F.build_surface([[x * usc for x in p] for p in coords], faces_in)
     mfaces = [tuple(int(v) for v in mesh.faces[f]) for f in range(len(mesh.faces))]
     if sorted(mfaces) != sorted(faces_in) and len(mfaces) != NF:
         raise RuntimeError("family member changed by the constructor")
@@ -509,7 +579,7 @@ def _run_surface(task, ctx: Ctx):
                 o = _exec(ctx, sampling.sample_surface, mesh, n, pc, wn, choices=choices, uniforms=uniforms)
                 det = {"vertices": coords, "faces": mfaces, "n_pts": n, "return_point_cloud": pc, "return_normals": wn,
                        "draws_per_point(face index, u1, u2)": rows[:3]}
-                rep.case(("surface", task["pointset"], mfaces, n, pc, wn, off))
+                rep.case(("surface", task["pointset"], mfaces, n, pc, wn, off, ctx.ex))
                 if not o.ok:
                     ctx.violation("C19.surface.returns", callee, exc_kind(o), icls, dict(det, msg=o.msg))
                     continue
@@ -524,6 +594,7 @@ def _run_surface(task, ctx: Ctx):
                 pts = _points_of(ctx, o2, pc, "C19.surface.count", callee, icls, det)
                 if pts is None:
                     continue
+                pts = pts / usc
                 if wn and pc:
                     if not val.vertices.has_attribute("normals"):
                         ctx.violation("C19.surface.normals", callee, "mismatch:no_normals_attribute", icls, det)
@@ -587,9 +658,10 @@ def _num(x):
     return float(x) if isinstance(x, str) else x
 
 
-def _vec(v):
+def _vec(v, s=1.0):
+    """the answer as a list of floats, in the caller's unit of length (division by a power of two: exact)"""
     import numpy as np
-    return [float(x) for x in np.asarray(v, dtype=float).ravel()]
+    return [float(x) / s for x in np.asarray(v, dtype=float).ravel()]
 
 
 def _vclose(got, want, scale):
@@ -617,6 +689,8 @@ def _run_curves(task, ctx: Ctx):
     import numpy as np
     import mouette as M
     rep = ctx.rep
+    s = ctx.set_unit(task, "curve")
+    lite = bool(task.get("lite"))          # unit-of-length tasks: evaluations and two exports per polygon
     for ip, poly in enumerate(task["polygons"]):
         deg, dim = len(poly) - 1, len(poly[0])
         rep.flag(f"curve:degree{deg}:{dim}d")
@@ -626,11 +700,11 @@ def _run_curves(task, ctx: Ctx):
         Pq = [tuple(Fr(x) for x in p) for p in poly]
         # control points are handed over as float tuples or, every other polygon, as integer tuples (the lattice
         # alphabet is integral): the value must not depend on the number type of the control points
-        as_int = ip % 2 == 1 and all(float(x).is_integer() for p in poly for x in p)
+        as_int = ip % 2 == 1 and all((float(x) * s).is_integer() for p in poly for x in p)
         if as_int:
             icls += ":int_control_points"
             rep.flag("curve:int_control_points")
-        o = call(M.splines.BezierCurve, [tuple((int(x) if as_int else float(x)) for x in p) for p in poly])
+        o = call(M.splines.BezierCurve, [tuple((int(x * s) if as_int else float(x) * s) for x in p) for p in poly])
         rep.traces += 1
         rep.states += 1
         if not o.ok:
@@ -638,7 +712,7 @@ def _run_curves(task, ctx: Ctx):
             continue
         curve = o.value
         if len(set(map(tuple, poly))) > 1:
-            rep.case(("curve", poly))
+            rep.case(("curve", poly, ctx.ex))
         # ---- evaluation = Bernstein form; end points; hull
         for t in PARAMS:
             o = call(curve.evaluate, t)
@@ -650,7 +724,7 @@ def _run_curves(task, ctx: Ctx):
                 rep.outcome("curve.evaluate", "raises")
                 continue
             rep.outcome("curve.evaluate", "ok")
-            got = _vec(o.value)
+            got = _vec(o.value, s)
             want = L.bernstein_curve(Pq, L.frac(t))
             if not _vclose(got, want, scale):
                 eval_bad = True
@@ -661,7 +735,7 @@ def _run_curves(task, ctx: Ctx):
             if not _hull_ok(got, poly, scale):
                 ctx.violation("C19.bezier.curve.hull", "BezierCurve.evaluate", "mismatch:outside_hull", "any", dict(det, got=got))
         # ---- rejection outside [0,1]
-        for tb in BAD_PARAMS:
+        for tb in ([] if lite else BAD_PARAMS):
             t = _num(tb)
             o = call(curve.evaluate, t)
             rep.transitions += 1
@@ -675,7 +749,7 @@ def _run_curves(task, ctx: Ctx):
             else:
                 rep.outcome("curve.evaluate", "raises")
         # ---- polyline export, all resolutions
-        for n in RESOLUTIONS:
+        for n in (RESOLUTIONS[:2] if lite else RESOLUTIONS):
             o = call(curve.as_polyline, n)
             rep.traces += 1
             rep.transitions += 1
@@ -683,7 +757,9 @@ def _run_curves(task, ctx: Ctx):
                                    {"control_points": poly, "n_pts": n}, scale, eval_bad=eval_bad)
         # ---- custom positions (sample count = len(custom_pos))
         customs = [[0.0, 1.0], [0.0, 0.5, 1.0], [0.0, 0.25, 1.0 / 3.0, 0.5, 1.0]]
-        if ip < 2:
+        if lite:
+            customs = customs[2:]
+        elif ip < 2:
             customs.append([i / 100.0 for i in range(101)])
         for pos in customs:
             o = call(curve.as_polyline, custom_pos=list(pos))
@@ -699,6 +775,7 @@ def _run_curves(task, ctx: Ctx):
 
 def _check_polyline_export(ctx, o, poly, Pq, n, params, icls, rcls, det, scale, custom=False, eval_bad=False):
     rep = ctx.rep
+    s = ctx.s
     sub = "C19.bezier.curve.export" + (".custom_pos" if custom else "")
     callee = "BezierCurve.as_polyline"
     cls = f"{icls}:{rcls}"
@@ -714,7 +791,7 @@ def _check_polyline_export(ctx, o, poly, Pq, n, params, icls, rcls, det, scale, 
     # the samples, in order: vertex i is the curve at parameter i (3-D, 2-D control points padded with 0)
     for i in range(n):
         rep.evaluations += 1
-        got = _vec(pl.vertices[i])
+        got = _vec(pl.vertices[i], s)
         want = _pad3(L.bernstein_curve(Pq, params[i]))
         if not _vclose(got, want, scale):
             if not eval_bad:      # positions are evaluate()'s answers: a wrong evaluate is reported once, there
@@ -735,18 +812,20 @@ def _run_patches(task, ctx: Ctx):
     import numpy as np
     import mouette as M
     rep = ctx.rep
+    s = ctx.set_unit(task, "patch")
+    lite = bool(task.get("lite"))          # unit-of-length tasks: evaluations and two exports per net
     for inet, net in enumerate(task["nets"]):
         m, n = len(net), len(net[0])
         rep.flag(f"patch:net{m}x{n}")
         icls = "rows==cols" if m == n else "rows!=cols"      # coarse class (the net is in the detail)
-        as_int = inet % 2 == 1 and all(float(x).is_integer() for row in net for p in row for x in p)
+        as_int = inet % 2 == 1 and all((float(x) * s).is_integer() for row in net for p in row for x in p)
         if as_int:
             icls += ":int_control_points"
         eval_bad = [False]
         flat = [p for row in net for p in row]
         scale = max(1.0, max(abs(x) for p in flat for x in p))
         Pq = [[tuple(Fr(x) for x in p) for p in row] for row in net]
-        o = call(M.splines.BezierPatch, [[tuple((int(x) if as_int else float(x)) for x in p) for p in row] for row in net])
+        o = call(M.splines.BezierPatch, [[tuple((int(x * s) if as_int else float(x) * s) for x in p) for p in row] for row in net])
         rep.traces += 1
         rep.states += 1
         if not o.ok:
@@ -754,7 +833,7 @@ def _run_patches(task, ctx: Ctx):
             continue
         patch = o.value
         if len(set(map(tuple, flat))) > 1:
-            rep.case(("patch", net))
+            rep.case(("patch", net, ctx.ex))
         # conventions still compatible with everything this net answered so far:
         #   "u_inner": S(u,v) = sum_ij B_i(v) B_j(u) P[i][j]   "u_outer": S(u,v) = sum_ij B_i(u) B_j(v) P[i][j]
         conv = {"u_inner", "u_outer"}
@@ -786,7 +865,7 @@ def _run_patches(task, ctx: Ctx):
                     rep.outcome("patch.evaluate", "raises")
                     continue
                 rep.outcome("patch.evaluate", "ok")
-                got = _vec(o.value)
+                got = _vec(o.value, s)
                 ok, w = narrow(got, L.frac(u), L.frac(v))
                 if not ok:
                     eval_bad[0] = True
@@ -809,6 +888,8 @@ def _run_patches(task, ctx: Ctx):
                               {"control_net": net, "corner_values": {str(k): v for k, v in corners.items()}})
         # ---- rejection
         bads = [(b, 0.5) for b in BAD_PARAMS] + [(0.5, b) for b in BAD_PARAMS] + [(b, b) for b in BAD_PARAMS[:4]]
+        if lite:
+            bads = []
         for ub, vb in bads:
             u, v = _num(ub), _num(vb)
             o = call(patch.evaluate, u, v)
@@ -824,6 +905,8 @@ def _run_patches(task, ctx: Ctx):
         # ---- surface export for every pair of resolutions
         for n1 in RESOLUTIONS:
             for n2 in RESOLUTIONS:
+                if lite and (n1, n2) not in ((2, 3), (3, 2)):
+                    continue
                 o = call(patch.as_surface, n1, n2)
                 rep.traces += 1
                 rep.transitions += 1
@@ -872,7 +955,7 @@ def _check_surface_export(ctx, o, net, n1, n2, rcls, narrow, scale, eval_bad=Fal
         return
     for k in range(nv):
         rep.evaluations += 1
-        got = _vec(mesh.vertices[k])
+        got = _vec(mesh.vertices[k], ctx.s)
         ok, w = narrow(got, L.frac(uv[k][0]), L.frac(uv[k][1]))
         if not ok:
             if not eval_bad:      # a wrong evaluate() is reported once, under C19.bezier.patch.evaluate
@@ -908,7 +991,455 @@ def _check_surface_export(ctx, o, net, n1, n2, rcls, narrow, scale, eval_bad=Fal
         ctx.violation(sub, callee, "mismatch:face_indices", rcls, dict(det, all_faces=[list(f) for f in faces][:8], **problem))
 
 
+# ================================================================================================ Bezier: call histories, ownership
+def _ctrl_arg(points, form, nested):
+    """The caller's control points in one argument form (tuples / one ndarray / Vec objects) and their values."""
+    import numpy as np
+    import mouette as M
+    if nested:
+        vals = [[[float(x) for x in p] for p in row] for row in points]
+    else:
+        vals = [[float(x) for x in p] for p in points]
+    if form == "ndarray":
+        arg = np.array(vals, dtype=float)
+    elif form == "vecs":
+        arg = [[M.Vec(*p) for p in row] for row in vals] if nested else [M.Vec(*p) for p in vals]
+    else:
+        arg = [[tuple(p) for p in row] for row in vals] if nested else [tuple(p) for p in vals]
+    return arg, vals
+
+
+def _values(arg):
+    import numpy as np
+    return np.array(arg, dtype=float).tolist()
+
+
+def _scribble(v):
+    """what a caller may do with a vector a function returned to him: overwrite it in place"""
+    import numpy as np
+    a = np.asarray(v)
+    if a.size == 0:
+        raise ValueError("empty result")
+    a[...] = 77
+
+
+def _assign_in_place(container, key, new):
+    container[key][...] = new
+
+
+def _polyline_samples(pl, n, dim):
+    """[(parameter i/(n-1), vertex i cut to the dimension of the control points)] or None if the count is wrong"""
+    if len(pl.vertices) != n:
+        return None
+    return [(Fr(i, n - 1), _vec(pl.vertices[i])[:dim]) for i in range(n)]
+
+
+def _surface_samples(mesh, n1, n2):
+    """[((u, v), vertex)] of an exported patch: the exported uv attribute if present, else the row-major layout"""
+    nv = len(mesh.vertices)
+    if nv != n1 * n2:
+        return None
+    if mesh.vertices.has_attribute("uv_coords"):
+        attr = mesh.vertices.get_attribute("uv_coords")
+        uv = [[float(x) for x in attr[k]] for k in range(nv)]
+    else:
+        uv = [[(k // n2) / (n1 - 1), (k % n2) / (n2 - 1)] for k in range(nv)]
+    return [((L.frac(uv[k][0]), L.frac(uv[k][1])), _vec(mesh.vertices[k])) for k in range(nv)]
+
+
+def _curve_histories(ctx, cls, poly, form):
+    """evaluate / export; move ONE control point through the public attribute `pts`; evaluate / export again: every
+    answer is the Bernstein form of the control points the curve holds at the time of the call."""
+    import mouette as M
+    rep = ctx.rep
+    deg, dim = len(poly) - 1, len(poly[0])
+    scale = max(1.0, max(abs(x) for p in poly for x in p) + max(abs(x) for x in OFFSET))
+    sub = "C19.bezier.curve.history"
+    pres = [("evaluate", t) for t in PARAMS] + [("as_polyline", 3)]
+    seqs = {"same_parameter": ["same_parameter", "other_parameter"],
+            "other_parameter": ["other_parameter", "same_parameter"], "export": ["export", "same_parameter"]}
+    for i in range(deg + 1):
+        new = [poly[i][k] + OFFSET[k] for k in range(dim)]
+        cur = poly[:i] + [new] + poly[i + 1:]
+        Pq = [tuple(Fr(x) for x in p) for p in cur]
+        Pq_old = [tuple(Fr(x) for x in p) for p in poly]
+        memo = {}
+
+        def want_at(t):
+            if t not in memo:
+                memo[t] = L.bernstein_curve(Pq, t)
+            return memo[t]
+
+        for pre in pres:
+            t_same = pre[1] if pre[0] == "evaluate" else 1.0        # as_polyline ends with the parameter 1
+            t_of = {"same_parameter": t_same, "other_parameter": 0.5 if t_same != 0.5 else 0.25}
+            if L.bernstein_curve(Pq, L.frac(t_same)) != L.bernstein_curve(Pq_old, L.frac(t_same)):
+                rep.flag("curve_hist:edit_changes_the_answer_at_the_same_parameter")
+            for mode in ("replace", "in_place"):
+                for first in ("same_parameter", "other_parameter", "export"):
+                    arg, _ = _ctrl_arg(poly, form, False)
+                    o = call(cls, arg)
+                    rep.traces += 1
+                    rep.states += 1
+                    if not o.ok:
+                        return                                        # reported by the construction clause
+                    curve = o.value
+                    o = call(curve.evaluate, pre[1]) if pre[0] == "evaluate" else call(curve.as_polyline, pre[1])
+                    if not o.ok:
+                        continue                                      # reported by the evaluation / export clauses
+                    det = {"control_points": poly, "form": form, "first_call": list(pre), "edit": mode, "index": i,
+                           "moved_to": new}
+                    if mode == "replace":
+                        e = call(lambda: curve.pts.__setitem__(i, M.Vec(*[float(x) for x in new])))
+                    else:
+                        e = call(lambda: _assign_in_place(curve.pts, i, [float(x) for x in new]))
+                    rep.transitions += 2
+                    if not e.ok:
+                        ctx.violation(sub, "BezierCurve.pts", exc_kind(e), f"edit={mode}", dict(det, msg=e.msg))
+                        continue
+                    rep.flag(f"curve_hist:edit={mode}")
+                    rep.case(("curve_hist", poly, pre, i, mode, first))
+                    for step in seqs[first]:
+                        rep.transitions += 1
+                        rep.flag(f"curve_hist:then={step}")
+                        icls = f"edit={mode}:then={step}"
+                        if step == "export":
+                            callee = "BezierCurve.as_polyline"
+                            o = call(curve.as_polyline, 3)
+                            samples = _polyline_samples(o.value, 3, dim) if o.ok else None
+                            if o.ok and samples is None:
+                                break                                 # wrong count: the export clause
+                        else:
+                            callee = "BezierCurve.evaluate"
+                            o = call(curve.evaluate, t_of[step])
+                            samples = [(L.frac(t_of[step]), _vec(o.value))] if o.ok else None
+                        if not o.ok:
+                            ctx.violation(sub, callee, exc_kind(o), icls, dict(det, then=step, msg=o.msg))
+                            break
+                        bad = None
+                        for t, got in samples:
+                            rep.evaluations += 1
+                            want = want_at(t)
+                            if not _vclose(got, want, scale):
+                                bad = dict(det, then=step, t=float(t), got=got, want_current_control_points=[float(x) for x in want],
+                                           value_for_the_control_points_before_the_edit=[float(x) for x in L.bernstein_curve(Pq_old, t)])
+                                break
+                        if bad:
+                            ctx.violation(sub, callee, "mismatch:not_the_current_control_points", icls, bad)
+                            break
+
+
+def _owner_class(deg0, at_end):
+    return "degree==0" if deg0 else ("parameter_at_end" if at_end else "parameter_interior")
+
+
+def _curve_ownership(ctx, cls, poly, form):
+    """A returned vector belongs to the caller (he may overwrite it in place without moving the curve); the caller's
+    control point arrays are not modified by construction, evaluation and export."""
+    rep = ctx.rep
+    deg, dim = len(poly) - 1, len(poly[0])
+    scale = max(1.0, max(abs(x) for p in poly for x in p))
+    Pq = [tuple(Fr(x) for x in p) for p in poly]
+    sub = "C19.bezier.curve.ownership"
+
+    def moved(curve):
+        for t2 in (0.0, 1.0, 0.5, 0.25):
+            o2 = call(curve.evaluate, t2)
+            rep.transitions += 1
+            rep.evaluations += 1
+            if not o2.ok:
+                return {"then_evaluate": t2, "raises": o2.exc, "msg": o2.msg}
+            got, want = _vec(o2.value), L.bernstein_curve(Pq, L.frac(t2))
+            if not _vclose(got, want, scale):
+                return {"then_evaluate": t2, "got": got, "want": [float(x) for x in want]}
+        return None
+
+    events = [("evaluate", t) for t in PARAMS] + [("as_polyline", n) for n in (2, 3)]
+    for ev in events:
+        arg, vals = _ctrl_arg(poly, form, False)
+        o = call(cls, arg)
+        rep.traces += 1
+        rep.states += 1
+        if not o.ok:
+            return
+        curve = o.value
+        det = {"control_points": poly, "form": form, "call": list(ev)}
+        if ev[0] == "evaluate":
+            callee = "BezierCurve.evaluate"
+            o = call(curve.evaluate, ev[1])
+            icls = _owner_class(deg == 0, ev[1] in (0.0, 1.0))
+        else:
+            callee = "BezierCurve.as_polyline"
+            o = call(curve.as_polyline, ev[1])
+            icls = _owner_class(deg == 0, True)
+        rep.transitions += 1
+        if not o.ok:
+            continue
+        rep.evaluations += 1
+        if _values(arg) != vals:
+            ctx.violation("C19.bezier.curve.inputs_unchanged", callee, "side_effect:caller_control_points_modified", f"form={form}",
+                          dict(det, now=_values(arg)))
+            continue
+        rep.flag(f"curve_owner:inputs_checked:form={form}")
+        if ev[0] == "evaluate":
+            m = call(_scribble, o.value)
+        else:
+            m = call(lambda: [_scribble(o.value.vertices[k]) for k in range(len(o.value.vertices))])
+        if not m.ok:
+            rep.count("ownership:result_not_editable")
+            continue
+        rep.flag(f"curve_owner:{ev[0]}:{icls}")
+        rep.case(("curve_owner", poly, ev, form))
+        bad = moved(curve)
+        if bad:
+            ctx.violation(sub, callee, "side_effect:curve_moved_by_overwriting_the_returned_vector", icls, dict(det, **bad))
+        elif _values(arg) != vals:
+            ctx.violation(sub, callee, "side_effect:caller_control_points_moved_by_overwriting_the_returned_vector", icls,
+                          dict(det, now=_values(arg)))
+
+
+def _run_curve_hist(task, ctx: Ctx):
+    import mouette as M
+    rep = ctx.rep
+    for ip, poly in enumerate(task["polygons"]):
+        form = FORMS[(ip + len(poly)) % 3]
+        rep.flag("curve_hist:form=" + form)
+        if len(poly) <= 2 or ip % int(task.get("hist_every", 1)) == 0:
+            _curve_histories(ctx, M.splines.BezierCurve, poly, form)
+        _curve_ownership(ctx, M.splines.BezierCurve, poly, form)
+    rep.sample({"bezier_curve_history": {"control_points": task["polygons"][-1], "first_call": "evaluate(t) | as_polyline(3)",
+                                         "edit": "pts[i] = Vec(p + OFFSET) | pts[i][...] = p + OFFSET", "offset": OFFSET}})
+
+
+# ---- patches
+def _patch_want(Pq, u, v, conv):
+    return L.bernstein_patch(Pq, v, u) if conv == "u_inner" else L.bernstein_patch(Pq, u, v)
+
+
+def _probe_convention(cls):
+    """which parameter runs along which index of the net: decided once on an asymmetric 2x3 net (both conventions stay
+    allowed if the answer fits neither: the evaluation clause reports that)"""
+    net = [[[0, 0, 0], [1, 0, 5], [2, 0, 0]], [[0, 3, 1], [1, 3, 0], [2, 3, 7]]]
+    o = call(lambda: _vec(cls([[tuple(float(x) for x in p) for p in row] for row in net]).evaluate(1.0, 0.0)))
+    if o.ok and _vclose(o.value, net[0][-1], 8.0):
+        return ["u_inner"]
+    if o.ok and _vclose(o.value, net[-1][0], 8.0):
+        return ["u_outer"]
+    return ["u_inner", "u_outer"]
+
+
+def _patch_histories(ctx, cls, net, form, convs):
+    import mouette as M
+    rep = ctx.rep
+    m, n = len(net), len(net[0])
+    flat = [p for row in net for p in row]
+    scale = max(1.0, max(abs(x) for p in flat for x in p) + max(abs(x) for x in OFFSET))
+    sub = "C19.bezier.patch.history"
+    Pq_old = [[tuple(Fr(x) for x in p) for p in row] for row in net]
+    pres = [("evaluate", u, v) for u in H_PARAMS for v in H_PARAMS] + [("as_surface", 2, 3)]
+    order = ["same_u_same_v", "same_u_other_v", "other_u_same_v", "export"]
+    for i in range(m):
+        for j in range(n):
+            new = [net[i][j][k] + OFFSET[k] for k in range(3)]
+            cur = [[(new if (a, b) == (i, j) else net[a][b]) for b in range(n)] for a in range(m)]
+            Pq = [[tuple(Fr(x) for x in p) for p in row] for row in cur]
+            memo = {}
+
+            def fits(got, u, v):
+                if (u, v) not in memo:
+                    memo[(u, v)] = [_patch_want(Pq, u, v, c) for c in convs]
+                return any(_vclose(got, w, scale) for w in memo[(u, v)])
+
+            for pre in pres:
+                u_same, v_same = (pre[1], pre[2]) if pre[0] == "evaluate" else (1.0, 1.0)   # as_surface ends with (1, 1)
+                uv_of = {"same_u_same_v": (u_same, v_same), "same_u_other_v": (u_same, 0.5), "other_u_same_v": (0.5, v_same)}
+                if any(_patch_want(Pq, L.frac(u_same), L.frac(v_same), c) != _patch_want(Pq_old, L.frac(u_same), L.frac(v_same), c)
+                       for c in convs):
+                    rep.flag("patch_hist:edit_changes_the_answer_at_the_same_parameters")
+                for mode in ("replace", "in_place"):
+                    for first in order:
+                        arg, _ = _ctrl_arg(net, form, True)
+                        o = call(cls, arg)
+                        rep.traces += 1
+                        rep.states += 1
+                        if not o.ok:
+                            return
+                        patch = o.value
+                        o = call(patch.evaluate, pre[1], pre[2]) if pre[0] == "evaluate" else call(patch.as_surface, pre[1], pre[2])
+                        if not o.ok:
+                            continue
+                        det = {"control_net": net, "form": form, "first_call": list(pre), "edit": mode, "index": [i, j],
+                               "moved_to": new}
+                        if mode == "replace":
+                            e = call(lambda: patch.pts[i].__setitem__(j, M.Vec(*[float(x) for x in new])))
+                        else:
+                            e = call(lambda: _assign_in_place(patch.pts[i], j, [float(x) for x in new]))
+                        rep.transitions += 2
+                        if not e.ok:
+                            ctx.violation(sub, "BezierPatch.pts", exc_kind(e), f"edit={mode}", dict(det, msg=e.msg))
+                            continue
+                        rep.flag(f"patch_hist:edit={mode}")
+                        rep.case(("patch_hist", net, pre, i, j, mode, first))
+                        for step in [first] + (order[1:3] if first == order[0] else [order[0]]):
+                            rep.transitions += 1
+                            rep.flag(f"patch_hist:then={step}")
+                            icls = f"edit={mode}:then={step}"
+                            if step == "export":
+                                callee = "BezierPatch.as_surface"
+                                o = call(patch.as_surface, 2, 3)
+                                samples = _surface_samples(o.value, 2, 3) if o.ok else None
+                                if o.ok and samples is None:
+                                    break
+                            else:
+                                callee = "BezierPatch.evaluate"
+                                u, v = uv_of[step]
+                                o = call(patch.evaluate, u, v)
+                                samples = [((L.frac(u), L.frac(v)), _vec(o.value))] if o.ok else None
+                            if not o.ok:
+                                ctx.violation(sub, callee, exc_kind(o), icls, dict(det, then=step, msg=o.msg))
+                                break
+                            bad = None
+                            for (u, v), got in samples:
+                                rep.evaluations += 1
+                                if not fits(got, u, v):
+                                    bad = dict(det, then=step, u=float(u), v=float(v), got=got,
+                                               want_current_control_net={c: [float(x) for x in _patch_want(Pq, u, v, c)] for c in convs},
+                                               value_for_the_net_before_the_edit={c: [float(x) for x in _patch_want(Pq_old, u, v, c)] for c in convs})
+                                    break
+                            if bad:
+                                ctx.violation(sub, callee, "mismatch:not_the_current_control_net", icls, bad)
+                                break
+
+
+O_PARAMS = [(0.0, 0.0), (1.0, 0.0), (0.0, 1.0), (1.0, 1.0), (0.0, 0.5), (0.5, 1.0), (0.5, 0.5), (1.0 / 3.0, 0.25)]
+
+
+def _patch_ownership(ctx, cls, net, form, convs):
+    rep = ctx.rep
+    m, n = len(net), len(net[0])
+    flat = [p for row in net for p in row]
+    scale = max(1.0, max(abs(x) for p in flat for x in p))
+    Pq = [[tuple(Fr(x) for x in p) for p in row] for row in net]
+    sub = "C19.bezier.patch.ownership"
+
+    def moved(patch):
+        for u, v in O_PARAMS:
+            o2 = call(patch.evaluate, u, v)
+            rep.transitions += 1
+            rep.evaluations += 1
+            if not o2.ok:
+                return {"then_evaluate": [u, v], "raises": o2.exc, "msg": o2.msg}
+            got = _vec(o2.value)
+            wants = [_patch_want(Pq, L.frac(u), L.frac(v), c) for c in convs]
+            if not any(_vclose(got, w, scale) for w in wants):
+                return {"then_evaluate": [u, v], "got": got, "want": [[float(x) for x in w] for w in wants]}
+        return None
+
+    events = [("evaluate", u, v) for u, v in O_PARAMS] + [("as_surface", 2, 2), ("as_surface", 3, 2)]
+    for ev in events:
+        arg, vals = _ctrl_arg(net, form, True)
+        o = call(cls, arg)
+        rep.traces += 1
+        rep.states += 1
+        if not o.ok:
+            return
+        patch = o.value
+        det = {"control_net": net, "form": form, "call": list(ev)}
+        if ev[0] == "evaluate":
+            callee = "BezierPatch.evaluate"
+            o = call(patch.evaluate, ev[1], ev[2])
+            ends = (ev[1] in (0.0, 1.0)) + (ev[2] in (0.0, 1.0))
+            icls = "net1x1" if m * n == 1 else ("parameters_at_corner" if ends == 2 else
+                                                 ("parameters_on_border" if ends == 1 else "parameters_interior"))
+        else:
+            callee = "BezierPatch.as_surface"
+            o = call(patch.as_surface, ev[1], ev[2])
+            icls = "net1x1" if m * n == 1 else "parameters_at_corner"
+        rep.transitions += 1
+        if not o.ok:
+            continue
+        rep.evaluations += 1
+        if _values(arg) != vals:
+            ctx.violation("C19.bezier.patch.inputs_unchanged", callee, "side_effect:caller_control_points_modified", f"form={form}",
+                          dict(det, now=_values(arg)))
+            continue
+        rep.flag(f"patch_owner:inputs_checked:form={form}")
+        if ev[0] == "evaluate":
+            mm = call(_scribble, o.value)
+        else:
+            mm = call(lambda: [_scribble(o.value.vertices[k]) for k in range(len(o.value.vertices))])
+        if not mm.ok:
+            rep.count("ownership:result_not_editable")
+            continue
+        rep.flag(f"patch_owner:{ev[0]}:{icls}")
+        rep.case(("patch_owner", net, ev, form))
+        bad = moved(patch)
+        if bad:
+            ctx.violation(sub, callee, "side_effect:patch_moved_by_overwriting_the_returned_vector", icls, dict(det, **bad))
+        elif _values(arg) != vals:
+            ctx.violation(sub, callee, "side_effect:caller_control_points_moved_by_overwriting_the_returned_vector", icls,
+                          dict(det, now=_values(arg)))
+
+
+def _run_patch_hist(task, ctx: Ctx):
+    import mouette as M
+    rep = ctx.rep
+    convs = _probe_convention(M.splines.BezierPatch)
+    if len(convs) == 1:
+        rep.flag("patch_hist:convention_decided")
+    for inet, net in enumerate(task["nets"]):
+        form = FORMS[(inet + len(net)) % 3]
+        rep.flag("patch_hist:form=" + form)
+        _patch_histories(ctx, M.splines.BezierPatch, net, form, convs)
+        _patch_ownership(ctx, M.splines.BezierPatch, net, form, convs)
+    rep.sample({"bezier_patch_history": {"control_net": task["nets"][-1], "first_call": "evaluate(u,v), u,v in {0,1/3,1} | as_surface(2,3)",
+                                         "edit": "pts[i][j] = Vec(p + OFFSET) | pts[i][j][...] = p + OFFSET", "offset": OFFSET}})
+
+
 # ================================================================================================ self test
+class _StandInCurve:
+    """NOT the library: a correct Bernstein evaluation with two habits the clauses must catch (used by the selftest)."""
+
+    def __init__(self, P):
+        import numpy as np
+        self.pts = [np.array(p, dtype=float) for p in P]
+        self._last = None
+
+    def evaluate(self, t):
+        import numpy as np
+        if t == 0:
+            return self.pts[0]                                   # handed out by reference
+        if t == 1:
+            return self.pts[-1]
+        if self._last is None or self._last[0] != t:             # one-entry cache, never invalidated
+            n = len(self.pts) - 1
+            self._last = (t, sum(math.comb(n, i) * t ** i * (1 - t) ** (n - i) * self.pts[i] for i in range(n + 1)))
+        return np.array(self._last[1])
+
+    def as_polyline(self, n):
+        raise NotImplementedError("stand-in")
+
+
+class _StandInPatch:
+    def __init__(self, P):
+        import numpy as np
+        self.pts = [[np.array(p, dtype=float) for p in row] for row in P]
+        self._row = None
+
+    def evaluate(self, u, v):                                    # u along the inner index ("u_inner")
+        import numpy as np
+        if (u, v) == (0, 0):
+            return self.pts[0][0]
+        if self._row is None or self._row[0] != u:               # row cache keyed on u, never invalidated
+            n = len(self.pts[0]) - 1
+            self._row = (u, [sum(math.comb(n, j) * u ** j * (1 - u) ** (n - j) * r[j] for j in range(n + 1)) for r in self.pts])
+        row, m = self._row[1], len(self.pts) - 1
+        return np.array(sum(math.comb(m, i) * v ** i * (1 - v) ** (m - i) * row[i] for i in range(m + 1)))
+
+    def as_surface(self, n1, n2):
+        raise NotImplementedError("stand-in")
+
+
 def _run_selftest(task, ctx: Ctx):
     """oracle self-tests; the ownership guard and the seam must be live (each must be able to fail)."""
     import numpy as np
@@ -951,6 +1482,24 @@ def _run_selftest(task, ctx: Ctx):
     _check_box_points(fctx, Outcome(True, np.array([[0.5, 0.5], [0.1, 0.1]])), False, 2, [[0, 1], [0, 1]], "uniform", 1, {}, {1})
     if sorted(v["kind"] for v in fake.violations) == ["mismatch:count", "mismatch:outside_box"]:
         rep.flag("selftest:box_oracle_can_fail")
+    # 5. the history and ownership clauses can fail: stand-ins with exactly the two habits they are about
+    #    (a one-entry answer cache that survives an edit of the control points; end points handed out by reference)
+    fake = Report()
+    fctx = Ctx(fake)
+    _curve_histories(fctx, _StandInCurve, [[0, 0, 0], [1, 2, -1], [-2, 1, 3]], "tuples")
+    _curve_ownership(fctx, _StandInCurve, [[0, 0, 0], [1, 2, -1], [-2, 1, 3]], "ndarray")
+    _patch_histories(fctx, _StandInPatch, [[[0, 0, 0], [1, 2, -1]], [[-2, 1, 3], [3, -1, 2]]], "tuples", ["u_inner"])
+    _patch_ownership(fctx, _StandInPatch, [[[0, 0, 0], [1, 2, -1]], [[-2, 1, 3], [3, -1, 2]]], "ndarray", ["u_inner"])
+    got = {(v["subcheck"], v["input_class"]) for v in fake.violations}
+    want = {("C19.bezier.curve.history", "edit=replace:then=same_parameter"), ("C19.bezier.curve.history", "edit=in_place:then=same_parameter"),
+            ("C19.bezier.curve.ownership", "parameter_at_end"),
+            ("C19.bezier.patch.history", "edit=replace:then=same_u_other_v"), ("C19.bezier.patch.history", "edit=in_place:then=same_u_same_v"),
+            ("C19.bezier.patch.ownership", "parameters_at_corner")}
+    if want <= got and not any(c.endswith("parameter_interior") or c.endswith("then=other_parameter") or c.endswith("parameters_interior")
+                               or c.endswith("then=other_u_same_v") for _, c in got):
+        rep.flag("selftest:history_and_ownership_clauses_can_fail")
+    else:
+        rep.notes.append(f"stand-in selftest: got {sorted(got)}")
     rep.traces += 1
 
 
@@ -982,6 +1531,10 @@ def run_task(task, rep: Report):
             _run_curves(task, ctx)
         elif kind == "patch":
             _run_patches(task, ctx)
+        elif kind == "curve_hist":
+            _run_curve_hist(task, ctx)
+        elif kind == "patch_hist":
+            _run_patch_hist(task, ctx)
         else:
             raise ValueError(kind)
 
@@ -1005,6 +1558,19 @@ def finish(tier, rep: Report):
     need += [f"curve:degree{d}:{k}d" for d in (0, 1, 2, 3) for k in (2, 3)] + ["curve:int_control_points"]
     need += [f"patch:net{m}x{n}" for m in (2, 3) for n in (2, 3)]
     need += [f"surface:pc={a}:normals={b}" for a in (False, True) for b in (False, True)]
+    need += [f"unit:2^{ex}:{k}" for ex in SCALE_EXPS
+             for k in ("sphere", "ball", "aabb_grid", "aabb_uniform", "polyline", "surface", "curve", "patch")]
+    need += ["polyline:unequal_shares:total_length<1e-8", "selftest:history_and_ownership_clauses_can_fail",
+             "curve_hist:edit_changes_the_answer_at_the_same_parameter", "patch_hist:edit_changes_the_answer_at_the_same_parameters",
+             "patch_hist:convention_decided"]
+    need += [f"{k}_hist:edit={e}" for k in ("curve", "patch") for e in ("replace", "in_place")]
+    need += [f"{k}_hist:form={f}" for k in ("curve", "patch") for f in FORMS]
+    need += [f"{k}_owner:inputs_checked:form={f}" for k in ("curve", "patch") for f in FORMS]
+    need += [f"curve_hist:then={x}" for x in ("same_parameter", "other_parameter", "export")]
+    need += [f"patch_hist:then={x}" for x in ("same_u_same_v", "same_u_other_v", "other_u_same_v", "export")]
+    need += [f"curve_owner:evaluate:{x}" for x in ("degree==0", "parameter_at_end", "parameter_interior")]
+    need += ["curve_owner:as_polyline:parameter_at_end", "patch_owner:as_surface:parameters_at_corner"]
+    need += [f"patch_owner:evaluate:{x}" for x in ("net1x1", "parameters_at_corner", "parameters_on_border", "parameters_interior")]
     for f in need:
         if f not in rep.flags:
             fails.append("coverage flag missing: " + f)
@@ -1022,16 +1588,16 @@ def finish(tier, rep: Report):
 def stale_variant(task, tier):
     """Tasks that are also run on meshes with a stale attribute blackboard (mc/families.py STALE; the runner appends
     ':stale_attribute_blackboard' to the input class of anything found there)."""
-    return bool(task.get("kind") in ("polyline", "surface"))
+    return bool(task.get("kind") in ("polyline", "surface") and not task.get("scale_exp"))
 
 
 def dupflag_variant(task, tier):
     """Tasks that are also run with config.display_duplicate_attribute_warning = True (the runner appends
     ':duplicate_attribute_flag' to the input class of anything found there)."""
-    return bool(task.get("kind") in ("polyline", "surface"))
+    return bool(task.get("kind") in ("polyline", "surface") and not task.get("scale_exp"))
 
 
 def warm_variant(task, tier):
     """Tasks that are also run on meshes whose attribute blackboard is already filled with (valid) persistent attributes
     (mc/families.py WARM; the runner appends ':warm_attribute_blackboard' to the input class of anything found there)."""
-    return bool(task.get("kind") in ("polyline", "surface"))
+    return bool(task.get("kind") in ("polyline", "surface") and not task.get("scale_exp"))
